@@ -41,6 +41,36 @@ func catalogue() []mistake {
 		{"func 2 results: second return value of different size", func(b *mocker.Builder) error { b.Func(hw.R2).Return(5, "x"); return nil }},
 		{"func: return value smaller than the result", func(b *mocker.Builder) error { b.Func(hw.F0).Return(int8(1)); return nil }},
 		{"func: return value larger than the result", func(b *mocker.Builder) error { b.Func(hw.F0).Return("x"); return nil }},
+		{"func 2 params: first parameter smaller, absorbed by the alignment of the second", func(b *mocker.Builder) error {
+			b.Func(hw.F2p).Apply(func(a int32, x int64) int { return 1 })
+			return nil
+		}},
+		{"func 2 params: bool for int", func(b *mocker.Builder) error { b.Func(hw.F2p).Apply(func(a bool, x int) int { return 1 }); return nil }},
+		{"func 2 params: sizes swapped (string,int) for (int,string)-like total", func(b *mocker.Builder) error {
+			b.Func(hw.F2p).Apply(func(a int8, x [15]byte) int { return 1 })
+			return nil
+		}},
+		{"func 3 params: sizes permuted", func(b *mocker.Builder) error {
+			b.Func(hw.F3p).Apply(func(a int64, x int32, c int8) int { return 1 })
+			return nil
+		}},
+		{"func 2 results: first result smaller, absorbed by alignment", func(b *mocker.Builder) error {
+			b.Func(hw.R2).Apply(func(a int) (int32, int64) { return 1, 1 })
+			return nil
+		}},
+		{"func: Returns with an ill-sized value in the second group", func(b *mocker.Builder) error { b.Func(hw.F2p).Returns(5, "x"); return nil }},
+		{"func 2 results: Returns with a short second group", func(b *mocker.Builder) error {
+			b.Func(hw.R2).Returns([]interface{}{1, 2}, []interface{}{3})
+			return nil
+		}},
+		{"method: Returns with an ill-sized value in the third group", func(b *mocker.Builder) error {
+			b.Struct(&hw.S{}).Method("Q").Returns(1, 2, int8(3))
+			return nil
+		}},
+		{"interface: As(..).Returns with an ill-sized value in the second group", func(b *mocker.Builder) error {
+			b.Interface(&hw.X).Method("B").As(func(ctx *mocker.IContext, a int) int { return 0 }).Returns(1, "x")
+			return nil
+		}},
 		{"func: origin placeholder is not a function", func(b *mocker.Builder) error { b.Func(hw.G).Origin(42).Apply(fA); return nil }},
 		{"method: unknown method name", func(b *mocker.Builder) error {
 			b.Struct(&hw.S{}).Method("Nope").Apply(func(s *hw.S, a int) int { return a })
@@ -116,7 +146,7 @@ func prefixAlphabet() []hwd.Op {
 // extra (never mocked) observables
 func extras() string {
 	a, b := hw.R2(3)
-	return fmt.Sprint(hw.F2p(3, 4), a, b, hw.NotIface, hw.PlainVar, hw.N0(1))
+	return fmt.Sprint(hw.F2p(3, 4), a, b, hw.NotIface, hw.PlainVar, hw.N0(1), (&hw.S{K: 2}).Q(5), hw.F3p(1, 2, 3))
 }
 
 // tryVal runs f and returns the recovered panic value.
